@@ -235,6 +235,15 @@ def build_world(es, loop_ref, lazy=False):
     return env, mains, main_src
 
 
+REMOVABLE_TAGS = ["cycle", "increment", "echo", "capture", "ifchanged", "tablerow"]
+
+
+def customise(env, removed):
+    """The documented way to switch a tag off: delete it from the environment's tag register."""
+    for name in removed:
+        env.tags.pop(name, None)
+
+
 def _nskw(op):
     return {NS_KEY: op["ns"]} if op.get("ns") is not None else {}
 
@@ -301,6 +310,11 @@ def _evaluate_probe1(probe):
         data = make_data(probe["data"], None)
         return norm(outcome(lambda: liquid.Template(probe["source"], **probe["kwargs"]).render(**data)))
     loop_ref = [None]
+    if probe["kind"] == "env_render":
+        env, _, srcs = build_world(probe["env"], loop_ref, lazy=True)
+        customise(env, probe["removed"])
+        data = make_data(probe["data"], None)
+        return norm(outcome(lambda: env.render(srcs[probe["op"]["main"]], **data)))
     if probe["mode"] == "sync":
         env, mains, _ = build_world(probe["env"], loop_ref, lazy=True)
         data = make_data(probe["data"], None)
@@ -412,7 +426,7 @@ class C17:
     REQUIRED_REACH = ["reach.order_variation_compared", "reach.pristine_compared", "reach.render_after_same_template", "reach.render_after_same_env", "reach.clock_advanced_between",
                       "reach.twin_data", "reach.concurrent_same_template", "reach.aborted_render", "fault.cancel_landed",
                       "reach.tz_equal_instants", "reach.implicit_env", "reach.fp_checks", "fault.drop_failed",
-                      "fault.fs_errno"]
+                      "fault.fs_errno", "reach.environment_customised"]
 
     def process_init(self):
         fork.init_zygote(evaluate_probe)
@@ -490,7 +504,8 @@ class C17:
 
         def gen_op():
             uid[0] += 1
-            k = rng.weighted([("render", 14), ("advance", 3), ("reparse", 1.5), ("implicit", 1.5)])
+            k = rng.weighted([("render", 14), ("advance", 3), ("reparse", 1.5), ("implicit", 1.5), ("env_render", 2),
+                              ("customise", 0.7)])
             op = {"op": k, "uid": uid[0]}
             if k == "advance":
                 op["us"] = rng.choice([1, 999_999, 1_000_000, 61_000_000, 3_600_000_000, 86_400_000_000,
@@ -498,6 +513,17 @@ class C17:
                 return op
             e = rng.randrange(len(envs))
             op["env"] = e
+            if k == "customise":
+                if envs[e]["loader"] not in ("dict", "sim", "choice"):
+                    # a caching loader keeps partials it parsed before the change: not comparable
+                    k = op["op"] = "env_render"
+                else:
+                    op["remove"] = rng.choice(REMOVABLE_TAGS)
+                    return op
+            if k == "env_render":
+                op["data"] = rng.randrange(len(datas))
+                op["main"] = rng.randrange(len(envs[e]["mains"]))
+                return op
             if k == "implicit":
                 op["data"] = rng.randrange(len(datas))
                 op["main"] = rng.randrange(len(envs[e]["mains"]))
@@ -660,6 +686,10 @@ class C17:
             src = src if isinstance(src, str) else G.render_source(src)
             probe = {"kind": "implicit", "source": src, "kwargs": op["kwargs"], "data": dspec, "clock": p["clock"]}
             key = digest(("imp", src, op["kwargs"], dspec, p["clock"]))
+        elif op["op"] == "env_render":
+            probe = {"kind": "env_render", "env": sc["envs"][e], "op": {"main": op["main"]}, "data": dspec,
+                     "clock": p["clock"], "removed": p["removed"]}
+            key = digest(("er", sc["envs"][e], op["main"], dspec, p["clock"], p["removed"]))
         else:
             tgt = {k: op[k] for k in ("main", "name", "tglobals", "ns") if k in op}
             probe = {"kind": "render", "env": sc["envs"][e], "op": tgt, "data": dspec, "clock": p["clock"],
@@ -674,6 +704,7 @@ class C17:
         loop = SimLoop(Rng(0, ("var",)), step_cap=800000, lat_profile={"max": 0.0, "zero_p": 1.0, "stall_p": 0.0})
         loop_ref = [loop]
         worlds = [build_world(es, loop_ref, lazy=True) for es in sc["envs"]]
+        custom_worlds = {}
         out = {}
 
         async def root():
@@ -686,6 +717,15 @@ class C17:
                 if op["op"] == "implicit":
                     data = make_data(dspec, None)
                     out[p["uid"]] = norm(outcome(lambda: liquid.Template(srcs[op["main"]], **op["kwargs"]).render(**data)))
+                elif op["op"] == "env_render":
+                    wkey = (e, tuple(p["removed"]))
+                    if wkey not in custom_worlds:
+                        w2 = build_world(sc["envs"][e], loop_ref, lazy=True)
+                        customise(w2[0], p["removed"])
+                        custom_worlds[wkey] = w2
+                    env2, _, srcs2 = custom_worlds[wkey]
+                    data = make_data(dspec, None)
+                    out[p["uid"]] = norm(outcome(lambda: env2.render(srcs2[op["main"]], **data)))
                 elif p["mode"] == "sync":
                     data = make_data(dspec, None)
                     out[p["uid"]] = norm(outcome(lambda: get_target(env, mains, op).render(**data)))
@@ -734,6 +774,7 @@ class C17:
         loop_ref = [loop]
         worlds = [build_world(es, loop_ref) for es in sc["envs"]]
         env_fp0 = [fp_env(w[0]) for w in worlds]
+        removed = [[] for _ in worlds]     # tags the application has switched off, per environment
         rendered = []          # (env index, target key, data index, clock)
         in_flight = {}
         history = []
@@ -855,6 +896,11 @@ class C17:
             if clock_at_invoke != CLOCK.us and sens[e]:
                 bump(st, "relaxed.clock_moved_during_render")   # another client advanced the clock mid-render
                 return
+            if removed[e]:
+                # parsed (or cached by its loader) before the tag was switched off: not comparable with a
+                # reference that parses under the final configuration
+                bump(st, "relaxed.parsed_before_customisation")
+                return
             probes.append({"uid": op["uid"], "op": op, "mode": mode, "clock": clock_at_invoke, "got": got,
                            "pos": len(probes)})
 
@@ -868,6 +914,27 @@ class C17:
                 if k == "advance":
                     CLOCK.advance(op["us"])
                     loop.event("clock.advance")
+                elif k == "customise":
+                    # the application switches a tag off (documented: delete it from env.tags); from now
+                    # on only operations that parse at call time are compared for this environment
+                    e = op["env"]
+                    customise(worlds[e][0], [op["remove"]])
+                    removed[e] = removed[e] + [op["remove"]]
+                    env_fp0[e] = fp_env(worlds[e][0])
+                    bump(st, "reach.environment_customised")
+                elif k == "env_render":
+                    e = op["env"]
+                    env, _, srcs = worlds[e]
+                    dspec = sc["datas"][op["data"]]
+                    data = make_data(dspec, None)
+                    nf0 = len(PLAN.fired)
+                    got = norm(outcome(lambda: env.render(srcs[op["main"]], **data)))
+                    history.append([op["uid"], "env_render", got[0], got[1] if got[0] == "err" else digest(got[1])])
+                    if len(PLAN.fired) != nf0:
+                        bump(st, "fault.fs_errno")      # a storage fault armed by a suspended render landed here
+                        continue
+                    probes.append({"uid": op["uid"], "op": op, "mode": "env_render", "clock": CLOCK.us, "got": got,
+                                   "pos": len(probes), "removed": list(removed[e])})
                 elif k == "reparse":
                     env, mains, srcs = worlds[op["env"]]
                     i = op["main"]
